@@ -273,6 +273,9 @@ def run(ctx: vlib.Ctx):
     pats = [list(p) for p in corpus["patterns"]] + gen_patterns(ctx.rng, 2 if ctx.quick else 12)
     jobs.append({"module": "crash", "patterns": pats, "max_timeout": 60})
     jobs.append({"module": "mutant", "max_timeout": 60, "per_stmt": 20})
+    # results whose pickling runs instrumented SUT code (exception class with __reduce__) and results far larger
+    # than a pipe buffer; 30 s limits: a child that blocks in send() costs one join timeout, not more
+    jobs.append({"module": "pickling", "max_timeout": 30, "per_stmt": 30})
     # unequal limits and a slow test case that is well inside its budget min(60, 5*6) = 30 s: a child that
     # gets other limits than the parent shows up as a limits difference and as a timeout-flag difference
     jobs.append({"module": "slow", "max_timeout": 60, "per_stmt": 5, "nap": 6})
